@@ -37,7 +37,7 @@ def run(chk):
         "decision table; sender and receiver Connection-header tables compose to `close iff not keep-alive` for both versions and directions; the "
         "success paths emit EOF; buffered headers are flushed once."
     )
-    chk.not_decided = "equality of method / path / query / headers / body end to end, segmentation independence of the composition, compression transparency, Expect: 100-continue sequencing (the bulk of the property)."
+    chk.not_decided = "equality of method / path / query / headers / body end to end, segmentation independence of the composition beyond the resumable-parser rules shared with C03 (C02.rx.*), compression transparency, Expect: 100-continue sequencing (the bulk of the property)."
     hmod = repo.module(HELPERS)
     # ---- tables ---------------------------------------------------------------------------------------------
     try:
@@ -247,6 +247,12 @@ def run(chk):
     from rules import C06
 
     chk.include(C06.run, ("C06.closeonerror",), ("C06.closeonerror", "C02.reuse"))
+    # the Content-Length a client derives from body.size is only truthful if a multipart body's declared size equals the bytes it writes
+    # (shared with C19 / C04); the request-head parser's resumable-state rules carry the "however the stream is segmented" clause (shared with C03)
+    from rules import C03, C19
+
+    chk.include(C19.run, ("C19.size",), ("C19.", "C02.multipart."))
+    chk.include(C03.run, ("C03.rp", "C03.save", "C03.bufshape", "C03.latch"), ("C03.", "C02.rx."))
 
 
 def rxselect(chk, repo, fd, codes, meths):
